@@ -179,8 +179,41 @@ partial def takePyVals : Nat → List String → Option (List PyVal × List Stri
     | some (v, r) => (takePyVals n r).map fun (vs, r') => (v :: vs, r')
     | none => none
 
+/-- `dflt seq <dim0> <steps…>`: successive checks of ONE item, the values changing in between; a step is
+`P <assign> <single> <value> <zones> <axes>` or `M <assign> <k> <values…> <axes>`, `<assign>` being `=` or a dimension
+the user assigns before the step; reply: per step `ok <dimension held>` / `err:<kind> <dimension held>`, joined by `;` -/
+partial def runDimSteps (s : DimState) (acc : List String) : List String → String
+  | [] => ";".intercalate acc.reverse
+  | "P" :: asg :: single :: rest =>
+    match takePyVal rest with
+    | some (v, zc :: axes :: rest') =>
+      match (if asg == "=" then some none else (pNatList asg).map some), pOpt String.toNat? zc, pAxes axes with
+      | some a, some zc, some axes =>
+        let s0 := match a with | some d => DimState.assigned d | none => s
+        let (s1, r) := paramCheckSt (single == "1") v zc axes s0
+        runDimSteps s1 (((match r with | .ok _ => "ok " | .error e => "err:" ++ e.name ++ " ") ++ showDim s1.held) :: acc) rest'
+      | _, _, _ => "bad"
+    | _ => "bad"
+  | "M" :: asg :: k :: rest =>
+    match k.toNat? with
+    | some k => match takePyVals k rest with
+      | some (vs, axes :: rest') =>
+        match (if asg == "=" then some none else (pNatList asg).map some), pAxes axes with
+        | some a, some axes =>
+          let s0 := match a with | some d => DimState.assigned d | none => s
+          let (s1, r) := calMeasCheckSt vs axes s0
+          runDimSteps s1 (((match r with | .ok _ => "ok " | .error e => "err:" ++ e.name ++ " ") ++ showDim s1.held) :: acc) rest'
+        | _, _ => "bad"
+      | _ => "bad"
+    | none => "bad"
+  | _ => "bad"
+
 /-- `dflt …`: the write-time checks and defaults of `Model/Defaults.lean` -/
 def handleDflt : List String → String
+  | "seq" :: dim0 :: steps =>
+    match pNatList dim0 with
+    | some d => runDimSteps (DimState.assigned d) [] steps
+    | none => "bad"
   | "param" :: single :: rest =>
     match takePyVal rest with
     | some (v, [zc, dim, axes]) =>
